@@ -613,19 +613,45 @@ Record regroup := mkRG { rg_sec : Z; rg_target : Z; rg_name : Z; rg_src : Z; rg_
                          rg_fkinds : list Z; rg_added : list Z; rg_dels : list Z; rg_remap : list (Z * Z);
                          rg_new : list Z }.
 
-Definition apply_regroup (r : regroup) (m : meta) : res meta :=
+(* the target table: created, or an existing one that may get further formula columns *)
+Definition regroup_target (r : regroup) (m : meta) : res (meta * Z) :=
   if negb (mem (rg_sec r) (sids m)) then Fail
-  else
-    bind (if rg_target r =? 0 then add_summary_table (rg_name r) (rg_src r) (rg_gb r) (rg_gbkinds r) (rg_fkinds r) m
-          else if mem (rg_target r) (tids m)
-               then Ok (set_columns m (m_columns m ++ new_columns (next_id (cids m)) (rg_target r) (rg_added r)),
-                        rg_target r)
-               else Fail) (fun '(m1, tgt) =>
-      let m2 := rm_fields (rg_dels r) m1 in
-      let m3 := set_fields m2 (map (fun f => match lookup (f_id f) (rg_remap r) with
-                                             | Some c => with_fcol c f | None => f end) (m_fields m2)) in
-      let m4 := add_fields (rg_sec r) (rg_new r) m3 in
-      Ok (upd_section (rg_sec r) (with_stable tgt) m4)).
+  else if negb (mem (rg_src r) (tids m) && cols_of_table m (rg_gb r) (rg_src r)) then Fail   (* _fetch_table_col_recs *)
+  else if rg_target r =? 0
+       then add_summary_table (rg_name r) (rg_src r) (rg_gb r) (rg_gbkinds r) (rg_fkinds r) m
+  else if mem (rg_target r) (tids m)
+       then Ok (set_columns m (m_columns m ++ new_columns (next_id (cids m)) (rg_target r) (rg_added r)),
+                rg_target r)
+  else Fail.
+
+(* fields deleted, fields moved, new fields, then the section shows the target table *)
+Definition regroup_fields (r : regroup) (tgt : Z) (m1 : meta) : meta :=
+  let m2 := rm_fields (rg_dels r) m1 in
+  let m3 := set_fields m2 (map (fun f => match lookup (f_id f) (rg_remap r) with
+                                         | Some c => with_fcol c f | None => f end) (m_fields m2)) in
+  let m4 := add_fields (rg_sec r) (rg_new r) m3 in
+  upd_section (rg_sec r) (with_stable tgt) m4.
+
+Definition apply_regroup (r : regroup) (m : meta) : res meta :=
+  bind (regroup_target r m) (fun '(m1, tgt) => Ok (regroup_fields r tgt m1)).
+
+(* What update_summary_section is meant to guarantee, and what the two defects break: the section is not the
+   raw or record-card section of a table; only fields of the section are moved; afterwards every field of the
+   section shows a column of the target table. *)
+Definition regroup_guard (r : regroup) (tgt : Z) (m1 : meta) : bool :=
+  negb (existsb (fun t => (t_raw t =? rg_sec r) || (t_card t =? rg_sec r)) (m_tables m1)) &&
+  forallb (fun f => (f_section f =? rg_sec r) ||
+                    match lookup (f_id f) (rg_remap r) with Some _ => false | None => true end) (m_fields m1) &&
+  forallb (fun f => negb (f_section f =? rg_sec r) ||
+                    col_of_section (regroup_fields r tgt m1) (rg_sec r) (f_col f))
+          (m_fields (regroup_fields r tgt m1)).
+
+Definition apply_regroup_guarded (r : regroup) (m : meta) : res meta :=
+  bind (regroup_target r m) (fun '(m1, tgt) =>
+    if regroup_guard r tgt m1 then Ok (regroup_fields r tgt m1) else Unmodelled).
+
+Fixpoint apply_regroups_guarded (rs : list regroup) (m : meta) : res meta :=
+  match rs with [] => Ok m | r :: t => bind (apply_regroup_guarded r m) (apply_regroups_guarded t) end.
 
 Fixpoint apply_regroups (rs : list regroup) (m : meta) : res meta :=
   match rs with [] => Ok m | r :: t => bind (apply_regroup r m) (apply_regroups t) end.
@@ -637,6 +663,12 @@ Definition remove_columns_regroup (cols : list Z) (rs : list regroup) (m : meta)
   else if negb (nodupb cols) then Unmodelled
   else if existsb (fun c => mem (c_id c) cols && negb (c_src c =? 0)) (m_columns m) then Fail
   else bind (apply_regroups rs m) (remove_columns_core cols).
+
+Definition remove_columns_regroup_guarded (cols : list Z) (rs : list regroup) (m : meta) : res meta :=
+  if negb (all_in cols (cids m)) then Fail
+  else if negb (nodupb cols) then Unmodelled
+  else if existsb (fun c => mem (c_id c) cols && negb (c_src c =? 0)) (m_columns m) then Fail
+  else bind (apply_regroups_guarded rs m) (remove_columns_core cols).
 
 (* ---------------------------------------------------------------------------------------------- *)
 (* DocModel.apply_auto_removes, repeated by Engine.apply_user_actions after the last user action of a bundle
@@ -722,11 +754,25 @@ Definition regroups_op (o : op) : bool :=
 Fixpoint steps (os : list op) (m : meta) : res meta :=
   match os with [] => Ok m | o :: t => bind (step o m) (steps t) end.
 
+(* the same actions with update_summary_section under its guard *)
+Definition step_guarded (o : op) (m : meta) : res meta :=
+  match o with
+  | ORegroup r => apply_regroup_guarded r m
+  | ORemoveColumnsG cols rs => remove_columns_regroup_guarded cols rs m
+  | _ => step o m
+  end.
+
+Fixpoint steps_guarded (os : list op) (m : meta) : res meta :=
+  match os with [] => Ok m | o :: t => bind (step_guarded o m) (steps_guarded t) end.
+
 Definition fuel_of (m : meta) : nat := S (length (m_columns m) + length (m_tables m)).
 
 (* one bundle: the user actions in order, then the auto-removals *)
 Definition run_bundle (os : list op) (m : meta) : res meta :=
   bind (steps os m) (fun m1 => auto_fix (fuel_of m1) m1).
+
+Definition run_bundle_guarded (os : list op) (m : meta) : res meta :=
+  bind (steps_guarded os m) (fun m1 => auto_fix (fuel_of m1) m1).
 
 (* ---------------------------------------------------------------------------------------------- *)
 (* the property: written once, as a boolean.  Used as the invariant of the theorems, evaluated on the real
